@@ -3,6 +3,7 @@ module verif/harness
 go 1.23
 
 require (
+	github.com/anishathalye/porcupine v1.3.0
 	github.com/welllog/golib v0.0.0
 	pgregory.net/rapid v1.3.0
 )
